@@ -127,7 +127,11 @@ impl<'b> Machine<'b> {
                         if how == 1 && s.capacity() < k + (b as usize >> 4) {
                             self.ctx.v("C13", format!("with_capacity_in({}) produced capacity {}", k + (b as usize >> 4), s.capacity()));
                         }
-                        self.put($wrap(VSlot { s, t }));
+                        let mut vs = VSlot::new(s, t);
+                        if how == 1 {
+                            vs.promised = k + (b as usize >> 4);
+                        }
+                        self.put($wrap(vs));
                     }
                     Err(e) => self.ctx.v("C13", format!("constructing a vector (variant {how}, {k} elements) panicked: {}", panic_msg(e))),
                 }
@@ -223,7 +227,7 @@ impl<'b> Machine<'b> {
                     Slot::E(v)
                 } else if code == 21 {
                     self.ctx.st(V::Conversions);
-                    let VSlot { s, t } = v;
+                    let VSlot { s, t, .. } = v;
                     let bs = {
                         let _g = enter_arena(1);
                         s.into_boxed_slice()
@@ -332,16 +336,18 @@ impl<'b> Machine<'b> {
         }
         let j = cands[(a as usize * cands.len()) >> 8];
         let other = <Slot<'b> as SlotAs<'b, P>>::get(&mut self.slots[j]).unwrap();
-        let VSlot { s, t } = v;
-        let VSlot { s: os, t: ot } = other;
+        let VSlot { s, t, .. } = v;
+        let VSlot { s: os, t: ot, .. } = other;
         self.ctx.both("clone_from", || s.clone_from(os), || t.clone_from(ot));
+        v.promised = 0;
+        other.check_promise(&mut self.ctx, "clone_from (source)");
     }
 
     /// An episode under an exhausted allocation limit: a fallible reservation that cannot be served must
     /// leave the vector (and its neighbours) exactly as they were.
     fn limit_episode<P: Pair>(&mut self, v: &mut VSlot<'b, P::A, P::B>, a: u8, b: u8, c: u8) {
         let bump = self.bump;
-        let VSlot { s, t } = v;
+        let VSlot { s, t, .. } = v;
         let held = bump.allocated_bytes();
         bump.set_allocation_limit(Some(held));
         let n = 64 + (a as usize) * 64;
@@ -394,14 +400,17 @@ impl<'b> Machine<'b> {
         }
         let j = cands[(a as usize * cands.len()) >> 8];
         let other = <Slot<'b> as SlotAs<'b, P>>::get(&mut self.slots[j]).unwrap();
-        let VSlot { s, t } = v;
-        let VSlot { s: os, t: ot } = other;
+        let VSlot { s, t, .. } = v;
+        let VSlot { s: os, t: ot, .. } = other;
         self.ctx.both("append", || s.append(os), || t.append(ot));
+        // neither operand may lose the room an earlier reserve / with_capacity promised it
+        v.check_promise(&mut self.ctx, "append (destination)");
+        other.check_promise(&mut self.ctx, "append (emptied source)");
     }
 
     fn bytes_op(&mut self, v: &mut VSlot<'b, u8, u8>, a: u8, b: u8, c: u8) {
         use std::io::Write;
-        let VSlot { s, t } = v;
+        let VSlot { s, t, .. } = v;
         let k = (b % 24) as usize;
         let data: Vec<u8> = (0..k).map(|j| c.wrapping_add(j as u8 * 3)).collect();
         match a % 5 {
